@@ -146,8 +146,15 @@ func c07Huge(c *corrCtx) {
 		wd := randWebpDesc(r, "VP8X", filler(total))
 		b, _ = wd.build()
 		files = append(files, seedFile{"webp-huge-iccp", "webp", b, 0})
+		if total == sizes[0] {
+			// a marker position followed by megabytes of 0xFF (fill bytes are legal before a marker)
+			ff := append([]byte{0xff, 0xd8}, bytes.Repeat([]byte{0xff}, 16<<20)...)
+			files = append(files, seedFile{"jpeg-ff-run-16MiB", "jpeg", ff, 0},
+				seedFile{"jpeg-ff-run-then-frame", "jpeg", append(append([]byte{}, ff...), 0xc0, 0x00, 0x0b, 8, 0, 16, 0, 16, 1, 1, 0x11, 0, 0xff, 0xd9), 0})
+		}
 		for _, f := range files {
 			for _, ld := range []string{f.format, "auto"} {
+				c.mark(fmt.Sprintf("huge input class=%s loader=%s len=%d", f.name, ld, len(f.data)))
 				res := runLoadx(ld, f.data, []int{1 << 20}, false, false)
 				c.stats["huge/"+ld]++
 				if !bytes.Equal(res.replay, f.data) || res.end != "eof" {
@@ -298,6 +305,29 @@ func corrC08(c *corrCtx) {
 		}
 	}
 	typedSourceCases(c, "C08", append(seedFiles(r, true), seedFiles(r, false)...))
+	// sources that now and then return (0, nil) — discouraged by the io.Reader contract but allowed, and
+	// tolerated by bufio and io.ReadFull: the result must still be the all-at-once one (direct oracle only;
+	// the model's sources always make progress)
+	for _, s := range append(seedFiles(r, true), append(seedFiles(r, false), realFiles()...)...) {
+		if len(s.data) > 1<<20 {
+			continue
+		}
+		lds := []string{"auto"}
+		if s.format != "none" {
+			lds = append(lds, s.format)
+		}
+		for _, ld := range lds {
+			ref := runLoadx(ld, s.data, nil, false, false).meta
+			for _, sc := range [][]int{{7, -1, 7, 7}, {4096, -1}, {-1, 1}, {40, -1, -1, 9000}, {1, 1, 1, -1}} {
+				got := runLoadx(ld, s.data, sc, false, false).meta
+				c.stats["empty-reads/"+ld]++
+				if got != ref {
+					c.direct(fmt.Sprintf("C08/empty-reads/%s/%s/sched=%s", s.name, ld, schedStr(sc)), "result depends on how the source segments its data (a schedule with occasional empty reads (0, nil))",
+						map[string]interface{}{"loader": ld, "sched": schedStr(sc), "all_at_once": ref, "got": got, "len": len(s.data)})
+				}
+			}
+		}
+	}
 	// far into a stream: the structure the loader still needs ends shortly after a round number of MiB
 	// of ancillary data (any limit on how much is read or recorded would sit at such a place); too large
 	// for the line protocol, so only the property's own oracle runs: every schedule gives the same answer
@@ -346,6 +376,18 @@ func corrC19(c *corrCtx) {
 	inputs = append(inputs, junkFiles(r)...)
 	inputs = append(inputs, realFiles()...)
 	typedSourceCases(c, "C19", inputs)
+	// ... and the same files cut exactly where the needed structures end (and one byte either side)
+	var cutFiles []seedFile
+	for _, s := range inputs {
+		if s.needed > 1 && s.needed <= len(s.data) && len(s.data) < 1<<20 {
+			for d := -1; d <= 1; d++ {
+				if k := s.needed + d; k >= 0 && k <= len(s.data) {
+					cutFiles = append(cutFiles, seedFile{fmt.Sprintf("%s/cut-at-needed%+d", s.name, d), s.format, s.data[:k], 0})
+				}
+			}
+		}
+	}
+	typedSourceCases(c, "C19", cutFiles)
 	n := 40
 	if c.thorough() {
 		n = 600
